@@ -20,7 +20,7 @@ RULE = ("seeded generator over kernel classes {isotropic scalar sigma, isotropic
         "axis-aligned sxx != syy (general path), correlated |r| < 0.3 / < 0.75 / < 0.925 / >= 0.925 (both signs), "
         "uniform box} x weights {persistence n=1,2,3 and real n, linear_ramp (all three branches), user weight} x "
         "point placement {inside, on a mesh node / region border, outside the region} x skew in {True, False} x "
-        "an input-container class {float64 array, int64 array, nested list of ints, nested list of floats} x {linear_ramp with fractional low/high/start/end, persistence n in {1, 2, 1.5}, user callable} on integer-valued points; resolutions {2x2, 2x3, 3x2} (thorough: up to 3x4 / 4x3) with 1-2 points (thorough: up to 4), dyadic and "
+        "multi-step HISTORIES on one imager (transform; window moved at equal pixel count by the range setters or by fit on shifted data; transform; pixel_size doubled and restored; transform) with general-path and fast-path kernels, every transform checked against the grid read from the public attributes birth_range / pers_range / pixel_size / resolution at that moment (the Coq run covers the last transform); an input-container class {float64 array, int64 array, nested list of ints, nested list of floats} x {linear_ramp with fractional low/high/start/end, persistence n in {1, 2, 1.5}, user callable} on integer-valued points; resolutions {2x2, 2x3, 3x2} (thorough: up to 3x4 / 4x3) with 1-2 points (thorough: up to 4), dyadic and "
         "random-double coordinates; the Coq model run covers isotropic / axis-aligned / uniform kernels, the "
         "correlated Gaussian is covered by the independent predicate only (verdict skip); a case is non-trivial "
         "when the image has two pixels that differ by more than 1e-9 and a pixel above 1e-9 in magnitude; "
@@ -182,9 +182,56 @@ def container_cases(rng, reps=1):
     return out
 
 
+HIST_KERNELS = ["uniform", "axis", "corr_mid", "uniform", "iso_scalar", "axis", "corr_top", "iso_matrix"]
+
+
+def _history_case(rng, kcls, wcls, variant):
+    """transform -> move the window at equal pixel count (setter, or fit on shifted data) -> transform ->
+    pixel_size there and back -> transform; all coordinates dyadic so that the pixel counts are exact."""
+    res = rng.choice([(2, 2), (2, 3), (3, 2)])
+    ps = rng.choice([0.5, 0.25, 1.0])
+    blo, plo = _dy(rng, -1, 1), _dy(rng, 0, 1)
+    skew = rng.random() < 0.6
+    base = _case(rng, kcls, wcls, "inside", res, 1, True, skew)
+    k, w = base["kernel"], base["weight"]
+
+    def pts_in(lo_b, lo_p, n):
+        out = []
+        for _ in range(n):
+            b = lo_b + rng.randint(0, res[0] * 8) * ps / 8
+            p = lo_p + rng.randint(1, res[1] * 8) * ps / 8
+            out.append([b, (b + p) if skew else p])
+        return out
+    db = rng.choice([-3, -1, 1, 2, 5]) * ps * rng.choice([0.5, 1.0, 1.5])
+    dp = rng.choice([0, 1, 2, 3]) * ps * rng.choice([0.5, 1.0])
+    nb_lo, np_lo = blo + db, plo + dp
+    hist = [{"op": "transform", "dgm": pts_in(blo, plo, rng.randint(1, 2))}]
+    if variant == "setter":
+        hist.append({"op": "birth_range", "val": [nb_lo, nb_lo + res[0] * ps]})
+        if dp:
+            hist.append({"op": "pers_range", "val": [np_lo, np_lo + res[1] * ps]})
+    else:   # fit on shifted data spanning exactly the same number of pixels
+        b1, p1 = nb_lo + res[0] * ps, np_lo + res[1] * ps
+        fd = [[nb_lo, (nb_lo + np_lo) if skew else np_lo], [b1, (b1 + p1) if skew else p1]]
+        hist.append({"op": "fit", "dgm": fd})
+    hist.append({"op": "transform", "dgm": pts_in(nb_lo, np_lo, rng.randint(1, 2))})
+    hist.append({"op": "pixel_size", "val": 2 * ps})
+    hist.append({"op": "pixel_size", "val": ps})
+    last = pts_in(nb_lo, np_lo, 1)
+    hist.append({"op": "transform", "dgm": last})
+    return {"cls": "history/%s/%s/%s" % (variant, kcls, wcls), "birth_range": [blo, blo + res[0] * ps],
+            "pers_range": [plo, plo + res[1] * ps], "pixel_size": ps, "kernel": k, "weight": w, "skew": skew,
+            "dgm": last, "history": hist, "container": "f64"}
+
+
+def history_cases(rng, n):
+    return [_history_case(rng, HIST_KERNELS[i % len(HIST_KERNELS)], ["pers_nat", "ramp", "user", "pers_nat"][i % 4],
+                          "setter" if i % 2 == 0 else "fit") for i in range(n)]
+
+
 def search_generate(rng, n):
     """Stream for the failing-input search: the container class first, then the general classes."""
-    cases = container_cases(rng, reps=max(1, n // 60))
+    cases = history_cases(rng, max(8, n // 10)) + container_cases(rng, reps=max(1, n // 60))
     while len(cases) < n:
         cases.append(_case(rng, rng.choice(KCLS_COQ + KCLS_CORR), rng.choice(WCLS), rng.choice(PLACES),
                            rng.choice([(2, 2), (2, 3), (3, 2), (3, 4)]), rng.randint(1, 4),
@@ -194,6 +241,7 @@ def search_generate(rng, n):
 
 def generate(rng, tier):
     cases = container_cases(rng, reps=1 if tier == "quick" else 6)
+    cases += history_cases(rng, 8 if tier == "quick" else 96)
     reps = 1 if tier == "quick" else 4
     for rep in range(reps):
         for kcls in KCLS_COQ + KCLS_CORR:
@@ -284,6 +332,18 @@ def make_input(pts, container):
     return np.array(pts, dtype=float).reshape(-1, 2)
 
 
+def public_grid(im):
+    """Pixel boundaries read from the PUBLIC attributes at this moment (not from the private mesh arrays)."""
+    (blo, _), (plo, _), ps, res = im.birth_range, im.pers_range, im.pixel_size, im.resolution
+    return ([float(blo + i * ps) for i in range(int(res[0]) + 1)],
+            [float(plo + j * ps) for j in range(int(res[1]) + 1)])
+
+
+def history_of(c):
+    """A case is a history of operations on ONE imager; a plain case is the one-step history."""
+    return c.get("history") or [{"op": "transform", "dgm": c["dgm"]}]
+
+
 def impl_run(cases):
     import copy
     import numpy as np
@@ -291,14 +351,33 @@ def impl_run(cases):
     for c in cases:
         def call():
             im = make_imager(c)
-            d = make_input(c["dgm"], c.get("container", "f64"))
-            d0 = copy.deepcopy(d)
-            img = np.asarray(im.transform(d, skew=c["skew"]))
-            return {"bp": [float(x) for x in im._bpnts], "pp": [float(x) for x in im._ppnts],
-                    "res": [int(x) for x in im.resolution], "shape": [int(x) for x in img.shape],
-                    "img": [[float(v) for v in row] for row in img] if img.ndim == 2 else None,
-                    "input_unchanged": bool(np.array_equal(np.asarray(d), np.asarray(d0)) and type(d) is type(d0)
-                                            and getattr(d, "dtype", None) == getattr(d0, "dtype", None))}
+            cont = c.get("container", "f64")
+            steps = []
+            for st in history_of(c):
+                op = st["op"]
+                if op == "transform":
+                    d = make_input(st["dgm"], cont)
+                    d0 = copy.deepcopy(d)
+                    img = np.asarray(im.transform(d, skew=c["skew"]))
+                    bp, pp = public_grid(im)
+                    steps.append({"dgm": st["dgm"], "bp": bp, "pp": pp,
+                                  "res": [int(x) for x in im.resolution], "shape": [int(x) for x in img.shape],
+                                  "img": [[float(v) for v in row] for row in img] if img.ndim == 2 else None,
+                                  "input_unchanged": bool(np.array_equal(np.asarray(d), np.asarray(d0)) and type(d) is type(d0)
+                                                          and getattr(d, "dtype", None) == getattr(d0, "dtype", None))})
+                elif op == "birth_range":
+                    im.birth_range = tuple(st["val"])
+                elif op == "pers_range":
+                    im.pers_range = tuple(st["val"])
+                elif op == "pixel_size":
+                    im.pixel_size = st["val"]
+                elif op == "fit":
+                    im.fit(make_input(st["dgm"], cont), skew=c["skew"])
+                else:
+                    raise ValueError("unknown op %r" % op)
+            o = dict(steps[-1])
+            o["steps"] = steps
+            return o
         outs.append(core.guarded(call))
     return outs
 
@@ -359,8 +438,8 @@ def _weight_ref(w, b, p):
     return 0.25 + 0.5 * p + b * b
 
 
-def reference_image(c, bp, pp):
-    pts = [(b, d - b) if c["skew"] else (b, d) for b, d in c["dgm"]]
+def reference_image(c, bp, pp, dgm=None):
+    pts = [(b, d - b) if c["skew"] else (b, d) for b, d in (c["dgm"] if dgm is None else dgm)]
     k = c["kernel"]
     img = [[0.0] * (len(pp) - 1) for _ in range(len(bp) - 1)]
     for (b, p) in pts:
@@ -380,18 +459,21 @@ def reference_image(c, bp, pp):
 def predicate(c, o):
     if "error" in o:
         return False, "unexpected-error: %s" % o
-    bp, pp = o["bp"], o["pp"]
-    if o["img"] is None or o["shape"] != [len(bp) - 1, len(pp) - 1] or o["shape"] != o["res"]:
-        return False, "shape: image %s, mesh %dx%d, resolution %s (axes are (birth, persistence))" % (
-            o["shape"], len(bp) - 1, len(pp) - 1, o["res"])
-    if not o.get("input_unchanged", True):
-        return False, "input-mutated: transform changed the caller's diagram array"
-    ref = reference_image(c, bp, pp)
-    for i, row in enumerate(ref):
-        for j, r in enumerate(row):
-            v = o["img"][i][j]
-            if not (v == v) or abs(v - r) > TOL * (1.0 + abs(r)):
-                return False, "pixel: image[%d][%d] = %r but sum of weight * kernel mass = %r" % (i, j, v, r)
+    steps = o.get("steps") or [o]
+    for n, st in enumerate(steps):
+        tag = "" if len(steps) == 1 else " (transform #%d of the history)" % (n + 1)
+        bp, pp = st["bp"], st["pp"]
+        if st["img"] is None or st["shape"] != [len(bp) - 1, len(pp) - 1] or st["shape"] != st["res"]:
+            return False, "shape: image %s, grid %dx%d, resolution %s (axes are (birth, persistence))%s" % (
+                st["shape"], len(bp) - 1, len(pp) - 1, st["res"], tag)
+        if not st.get("input_unchanged", True):
+            return False, "input-mutated: transform changed the caller's diagram array%s" % tag
+        ref = reference_image(c, bp, pp, st.get("dgm"))
+        for i, row in enumerate(ref):
+            for j, r in enumerate(row):
+                v = st["img"][i][j]
+                if not (v == v) or abs(v - r) > TOL * (1.0 + abs(r)):
+                    return False, "pixel: image[%d][%d] = %r but sum of weight * kernel mass = %r%s" % (i, j, v, r, tag)
     return True, ""
 
 
@@ -477,6 +559,12 @@ def coq_judge(cases, outs, results):
 
 
 def shrink_candidates(c):
+    if c.get("history"):
+        h = c["history"]
+        # drop one non-final operation at a time (the last transform stays)
+        for i in range(len(h) - 1):
+            d = dict(c); d["history"] = h[:i] + h[i + 1:]; yield d
+        return
     if len(c["dgm"]) > 1:
         for i in range(len(c["dgm"])):
             d = dict(c); d["dgm"] = c["dgm"][:i] + c["dgm"][i + 1:]; yield d
